@@ -71,6 +71,10 @@ def obligations(tier: str):
                                      "3 unmasked + 1 masked concrete points" % (cdc, "/".join(ms)), functions=funcs,
                               stubs=stubs + ["a fresh set of fitted values per minimize call", "log10 is strictly increasing (sort key)"], expect_reach=["fit"], mode="fresh",
                               max_paths=1000000))
+    obs.append(Obligation("fit.RR.multi.expr", c08.make_fit_harness("RR", True, ("leastsq", "nelder")),
+                          bounds="fit_circuit(RR) with one constraint expression, methods leastsq/nelder one after the other in the calling process; start values, limits, fixed flags "
+                                 "symbolic; concrete data", functions=funcs, stubs=stubs + ["a fresh set of fitted values per minimize call", "log10 is strictly increasing (sort key)"],
+                          expect_reach=["fit", "fit:constraint expressions hold for the returned values"], mode="fresh", max_paths=1000000))
     obs.append(Obligation("selection", c17.make_fit_harness(3), bounds="3 methods, each succeeding or failing, symbolic pairwise distinct pseudo chi-squared values, serial and parallel",
                           functions=[fit.fit_circuit], stubs=stubs, expect_reach=["fit"]))
     obs.append(Obligation("start_outside", make_start_outside_harness(), bounds="R with limits [1, 100] and a symbolic start value", functions=[fit._to_lmfit],
